@@ -91,6 +91,8 @@ TBoundary ==
 \* lepton Yukawa matrices (no CKM rotation): the (3,3) entry is the only one a running mass enters, and the
 \* running tau mass at the scale of a Higgs mass (> m_tau) is below the pole mass
 IsLepton(n) == Len(n) >= 2 /\ SubSeq(n, 1, 2) = "yl"
+\* "ylHp_re22" -> "Hp"
+BosonOf(n) == SubSeq(n, 3, Len(n) - 5)
 ThirdGen(n) == Len(n) >= 2 /\ SubSeq(n, Len(n) - 1, Len(n)) = "22"
 TThdmRun ==
   /\ l <= NLines /\ TraceLog[l].e = "ThdmRun"
@@ -99,8 +101,18 @@ TThdmRun ==
        ELSE /\ yoff' = None
             /\ Step(IF yoff.e = "ThdmRun" /\ yoff.case = ev.case /\ yoff.exc = "" /\ ev.exc = ""
                     THEN << I("RunningOnlyThirdGeneration", \A n \in DOMAIN ev.yuk : (IsLepton(n) /\ ~ThirdGen(n)) => ev.yuk[n].b = yoff.yuk[n].b),
-                            I("RunningLowersCouplings", \A n \in DOMAIN ev.yuk : (IsLepton(n) /\ ThirdGen(n)) => Le(Abs(ev.yuk[n]), Abs(yoff.yuk[n]))),
-                            I("RunningChangesSomething", \E n \in DOMAIN ev.yuk : ev.yuk[n].b # yoff.yuk[n].b) >>
+                            I("RunningLowersCouplings", \A n \in DOMAIN ev.yuk : (IsLepton(n) /\ ThirdGen(n) /\ Lt(ev.mrun["mtau_in"], ev.mrun["m_" \o BosonOf(n)]))
+                                                                                  => Le(Abs(ev.yuk[n]), Abs(yoff.yuk[n]))),
+                            I("RunningChangesSomething", \E n \in DOMAIN ev.yuk : ev.yuk[n].b # yoff.yuk[n].b),
+                            \* with running enabled the third-generation Yukawa of every Higgs boson S is built from the running
+                            \* mass at Q = m_S, for every positive scale: y_on(3,3) m_in = y_off(3,3) m_f(m_S)   (Pi_f = Delta_f = 0)
+                            I("RunningMassAtBosonScale",
+                                \A f \in {"u", "d", "l"}, S \in {"h", "H", "A", "Hp"}, part \in {"_re22", "_im22"} :
+                                   LET n == "y" \o f \o S \o part
+                                       min == ev.mrun[(CASE f = "u" -> "mt_in" [] f = "d" -> "mb_in" [] OTHER -> "mtau_in")]
+                                       mr == ev.mrun[f \o "_" \o S]
+                                   IN (IsFin(mr) /\ IsFin(ev.yuk[n]) /\ IsFin(yoff.yuk[n])) =>
+                                         RelClose(Mul(ev.yuk[n], min), Mul(yoff.yuk[n], mr), One, TenPow(12))) >>
                     ELSE << >>, ev.sig)
   /\ UNCHANGED <<prev, prev2>>
 
